@@ -6,7 +6,10 @@ Import ListNotations.
 
 Section S2.
 Variable P : prog.
-Hypothesis Hct : class_table_ok P.
+Hypothesis Hpo : prog_ok P.
+Let Hct : class_table_ok P := proj1 Hpo.
+Let Hmc : methods_compat P := proj1 (proj2 Hpo).
+Let Hbo : bodies_ok P := proj2 (proj2 Hpo).
 
 Let Htrans : sub_trans P := proj1 Hct.
 Let Hrefl : sub_refl P := proj1 (proj2 Hct).
@@ -164,8 +167,6 @@ Definition infer_list (sm : bool) (d : decls) (fr : frame) :=
     | a :: r => bind (infer P sm d fr a) (fun x => bind (go r) (fun ts => Ok (fst x :: ts)))
     end.
 
-Definition call_free_list := fix go (l : list expr) := match l with [] => true | a :: r => call_free a && go r end.
-
 Lemma infer_new : forall sm d fr c args, infer P sm d fr (ENew c args) =
   match fields_of P c with
   | None => Rej None
@@ -174,16 +175,42 @@ Lemma infer_new : forall sm d fr c args, infer P sm d fr (ENew c args) =
   end.
 Proof. reflexivity. Qed.
 
+Lemma infer_callm : forall sm d fr e1 m args, infer P sm d fr (ECallM e1 m args) =
+  bind (infer P sm d fr e1) (fun x =>
+    bind (infer_list sm d fr args) (fun ats =>
+      bind (map_res (call_item P m ats) (items (fst x))) (fun ts =>
+        let t := mk_union P ts in Ok (t, generic_maps P t)))).
+Proof. reflexivity. Qed.
+
+Lemma infer_callf : forall sm d fr g args, infer P sm d fr (ECallF g args) =
+  match lookup (p_funcs P) g with
+  | None => Rej None
+  | Some fd => bind (infer_list sm d fr args) (fun ats =>
+      if check_args P ats (f_params fd) then Ok (f_ret fd, generic_maps P (f_ret fd)) else Rej None)
+  end.
+Proof. reflexivity. Qed.
+
+Lemma bind_params_ok : forall (ps : list (id * ty)) vs, mems P vs (map snd ps) ->
+  env_decl_ok P (bind_params ps vs) ps.
+Proof.
+  intros ps. unfold bind_params. induction ps as [|[y t] r IH]; intros vs H x v Hl; inversion H; subst; simpl in *; [discriminate|].
+  destruct (Nat.eqb x y); [inversion Hl; subst; eauto | eapply IH; eauto].
+Qed.
+
+Lemma bind_self_ok : forall c (ps : list (id * ty)) vs v, mem P v (TInst c) -> mems P vs (map snd ps) ->
+  env_decl_ok P ((self_id, v) :: bind_params ps vs) ((self_id, TInst c) :: ps).
+Proof.
+  intros c ps vs v Hv H x w Hl. simpl in *. destruct (Nat.eqb x self_id).
+  - inversion Hl; subst. eauto.
+  - eapply bind_params_ok; eauto.
+Qed.
+
 Lemma infer_tuple : forall sm d fr es, infer P sm d fr (ETuple es) =
   bind (infer_list sm d fr es) (fun ts => Ok (TTuple ts, generic_maps P (TTuple ts))).
 Proof. reflexivity. Qed.
 
-Definition expr_ok_at (f : nat) : Prop :=
-  forall e d fr t m en, call_free e = true -> infer P true d fr e = Ok (t, m) ->
-    env_decl_ok P en d -> env_frame_ok P en fr -> expr_result_ok P en t m (eval P f en e).
-
-Lemma list_sound : forall f, expr_ok_at f -> forall es d fr ats en,
-  call_free_list es = true -> infer_list true d fr es = Ok ats ->
+Lemma list_sound : forall f, expr_ok_at P f -> forall es d fr ats en,
+  infer_list true d fr es = Ok ats ->
   env_decl_ok P en d -> env_frame_ok P en fr ->
   match eval_list (eval P f en) es with
   | Val vs => mems P vs ats
@@ -191,16 +218,15 @@ Lemma list_sound : forall f, expr_ok_at f -> forall es d fr ats en,
   | NoFuel => True
   end.
 Proof.
-  intros f IH es. induction es as [|a r IHr]; intros d fr ats en Hcf Hi Hd Hf; simpl in *.
+  intros f IH es. induction es as [|a r IHr]; intros d fr ats en Hi Hd Hf; simpl in *.
   - inversion Hi; subst. constructor.
-  - apply andb_prop in Hcf. destruct Hcf as [Ca Cr].
-    destruct (infer P true d fr a) as [[ta ma]| |] eqn:Ea; simpl in Hi; try discriminate.
+  -     destruct (infer P true d fr a) as [[ta ma]| |] eqn:Ea; simpl in Hi; try discriminate.
     destruct (infer_list true d fr r) as [ts| |] eqn:Er; simpl in Hi; try discriminate.
     inversion Hi; subst. simpl.
-    pose proof (IH a d fr ta ma en Ca Ea Hd Hf) as Ra.
+    pose proof (IH a d fr ta ma en Ea Hd Hf) as Ra.
     destruct (eval P f en a) as [va|x|]; simpl in *; [|exact Ra|exact I].
     destruct Ra as [Ma _].
-    specialize (IHr d fr ts en Cr Er Hd Hf).
+    specialize (IHr d fr ts en Er Hd Hf).
     destruct (eval_list (eval P f en) r) as [vs|x|]; simpl; [|exact IHr|exact I].
     constructor; assumption.
 Qed.
@@ -237,18 +263,18 @@ Proof.
   - destruct H as [[m1 [E1 M1]]|[m2 [E2 M2]]]; discriminate.
 Qed.
 
-Ltac sub_eval IH e1 E1 Hd Hf C1 M1 R1 :=
+Ltac sub_eval IH e1 E1 Hd Hf M1 R1 :=
   match type of E1 with infer P true ?d ?fr e1 = Ok (?t1, ?m1) =>
     match goal with |- context [eval P ?f ?en e1] =>
       let R := fresh "R" in
-      pose proof (IH e1 d fr t1 m1 en C1 E1 Hd Hf) as R;
+      pose proof (IH e1 d fr t1 m1 en E1 Hd Hf) as R;
       destruct (eval P f en e1) as [?v|?x|] eqn:?Ev; simpl in *; [destruct R as [M1 R1] | exact R | exact I]
     end
   end.
 
-Theorem expr_sound_cf : forall f, expr_ok_at f.
+Theorem expr_step : forall f, expr_ok_at P f -> body_ok_at P f -> expr_ok_at P (S f).
 Proof.
-  induction f as [|f IH]; intros e d fr t m en Hcf Hi Hd Hf; [exact I|].
+  intros f IH HB e d fr t m en Hi Hd Hf.
   destruct e; simpl eval.
   - (* EVar *)
     simpl in Hi. destruct (view d fr x) as [tx|] eqn:Ev; [|discriminate]. inversion Hi; subst.
@@ -275,7 +301,7 @@ Proof.
     rewrite infer_new in Hi. unfold fields_of in Hi. destruct (class_of P c) as [cd|] eqn:Ec; [|discriminate].
     destruct (infer_list true d fr args) as [ats| |] eqn:Ea; simpl in Hi; try discriminate.
     destruct (check_args P ats (c_fields cd)) eqn:Eca; [|discriminate]. inversion Hi; subst.
-    pose proof (list_sound f IH args d fr ats en Hcf Ea Hd Hf) as Rl.
+    pose proof (list_sound f IH args d fr ats en Ea Hd Hf) as Rl.
     destruct (eval_list (eval P f en) args) as [vs|x|]; simpl; [|exact Rl|exact I].
     unfold check_args in Eca. pose proof (forall2b_sub_mems _ _ _ Rl Eca) as Mf.
     rewrite (mems_length _ _ Mf), map_length, Nat.eqb_refl.
@@ -283,11 +309,11 @@ Proof.
     { econstructor; [eapply Hrefl; eauto | unfold fields_of; rewrite Ec; reflexivity | apply mems_memf; exact Mf]. }
     split; [exact Mo | apply generic_ok; exact Mo].
   - (* EAttr *)
-    simpl in Hi, Hcf.
+    simpl in Hi.
     destruct (infer P true d fr e) as [[t1 m1]| |] eqn:E1; simpl in Hi; try discriminate.
     destruct (map_res (attr_item P a) (items t1)) as [ts| |] eqn:Em; simpl in Hi; try discriminate.
     inversion Hi; subst.
-    sub_eval IH e E1 Hd Hf Hcf M1 R1.
+    sub_eval IH e E1 Hd Hf M1 R1.
     destruct (mem_items P _ _ M1) as [i [Hi1 Mi]].
     destruct (map_res_in _ _ _ _ _ _ Em Hi1) as [ti [Hti Hin]].
     unfold attr_item in Hti. destruct i; try discriminate.
@@ -301,22 +327,69 @@ Proof.
     assert (Mt : mem P w (mk_union P ts)).
     { eapply mk_union_sound; [exact Htrans | exact Hin | eapply subtype_sound; eauto]. }
     split; [exact Mt | apply generic_ok; exact Mt].
-  - (* ECallM *) discriminate.
-  - (* ECallF *) discriminate.
+  - (* ECallM *)
+    rewrite infer_callm in Hi.
+    destruct (infer P true d fr e) as [[t1 m1]| |] eqn:E1; simpl in Hi; try discriminate.
+    destruct (infer_list true d fr args) as [ats| |] eqn:Ea; simpl in Hi; try discriminate.
+    destruct (map_res (call_item P m0 ats) (items t1)) as [ts| |] eqn:Em; simpl in Hi; try discriminate.
+    inversion Hi; subst.
+    sub_eval IH e E1 Hd Hf M1 R1.
+    destruct (mem_items P _ _ M1) as [i [Hi1 Mi]].
+    destruct (map_res_in _ _ _ _ _ _ Em Hi1) as [ti [Hti Hin]].
+    unfold call_item in Hti. destruct i; try discriminate.
+    destruct (method_of P c m0) as [[o md]|] eqn:Emo; [|discriminate].
+    destruct (check_args P ats (f_params md)) eqn:Eca; [|discriminate]. inversion Hti; subst.
+    inversion Mi as [ | | | | | | |c0 dc fs fds Hsub Hfd Hmf]; subst.
+    assert (Hcd : exists cd, class_of P dc = Some cd).
+    { unfold fields_of in Hfd. destruct (class_of P dc); [eauto|discriminate]. }
+    destruct (Hmc _ _ _ _ _ Hsub Hcd Emo) as [o' [md' [Emo' [Hso' [[cd' [Hc' Hl']] Hcompat]]]]].
+    rewrite Emo'.
+    pose proof (list_sound f IH args d fr ats en Ea Hd Hf) as Rl.
+    destruct (eval_list (eval P f en) args) as [vs|x|]; simpl; [|exact Rl|exact I].
+    unfold check_args in Eca. pose proof (forall2b_sub_mems _ _ _ Rl Eca) as Mps.
+    assert (Mps' : mems P vs (map snd (f_params md')) /\ is_subtype P (f_ret md') (f_ret md) = true \/ md' = md).
+    { destruct Hcompat as [->|Hsc]; [right; reflexivity|]. left.
+      unfold sig_compat in Hsc. apply andb_prop in Hsc. destruct Hsc as [Hp Hr].
+      split; [eapply forall2b_sub_mems; eauto | exact Hr]. }
+    assert (Mps2 : mems P vs (map snd (f_params md'))).
+    { destruct Mps' as [[A _]| ->]; assumption. }
+    rewrite (mems_length _ _ Mps2), map_length, Nat.eqb_refl.
+    assert (Mself : mem P (VObj dc fs) (TInst o')) by (econstructor; eauto).
+    pose proof (HB (Some o') md' ((self_id, VObj dc fs) :: bind_params (f_params md') vs)
+                  (proj2 Hbo _ _ _ _ Hc' Hl') (bind_self_ok _ _ _ _ Mself Mps2)) as Rb.
+    unfold call_ok in Rb.
+    destruct (finish_call _) as [r|x|]; [|exact Rb|exact I].
+    assert (Mr : mem P r (f_ret md)).
+    { destruct Mps' as [[_ Hr]| ->]; [eapply subtype_sound; eauto | exact Rb]. }
+    assert (Mt : mem P r (mk_union P ts)) by (eapply mk_union_sound; [exact Htrans | exact Hin | exact Mr]).
+    split; [exact Mt | apply generic_ok; exact Mt].
+  - (* ECallF *)
+    rewrite infer_callf in Hi.
+    destruct (lookup (p_funcs P) f0) as [fd|] eqn:Eg; [|discriminate].
+    destruct (infer_list true d fr args) as [ats| |] eqn:Ea; simpl in Hi; try discriminate.
+    destruct (check_args P ats (f_params fd)) eqn:Eca; [|discriminate]. inversion Hi; subst.
+    pose proof (list_sound f IH args d fr ats en Ea Hd Hf) as Rl.
+    destruct (eval_list (eval P f en) args) as [vs|x|]; simpl; [|exact Rl|exact I].
+    unfold check_args in Eca. pose proof (forall2b_sub_mems _ _ _ Rl Eca) as Mps.
+    rewrite (mems_length _ _ Mps), map_length, Nat.eqb_refl.
+    pose proof (HB None fd (bind_params (f_params fd) vs) (proj1 Hbo _ _ Eg) (bind_params_ok _ _ Mps)) as Rb.
+    unfold call_ok in Rb.
+    destruct (finish_call _) as [r|x|]; [|exact Rb|exact I].
+    split; [exact Rb | apply generic_ok; exact Rb].
   - (* EBin *)
-    simpl in Hi, Hcf. apply andb_prop in Hcf. destruct Hcf as [C1 C2].
+    simpl in Hi.
     destruct (infer P true d fr e1) as [[t1 m1]| |] eqn:E1; simpl in Hi; try discriminate.
     destruct (infer P true d fr e2) as [[t2 m2]| |] eqn:E2; simpl in Hi; try discriminate.
     destruct (binop_ty P op t1 t2) as [tb| |] eqn:Eb; simpl in Hi; try discriminate. inversion Hi; subst.
-    sub_eval IH e1 E1 Hd Hf C1 M1 R1.
-    sub_eval IH e2 E2 Hd Hf C2 M2 R2.
+    sub_eval IH e1 E1 Hd Hf M1 R1.
+    sub_eval IH e2 E2 Hd Hf M2 R2.
     pose proof (binop_sound _ _ _ _ _ _ Eb M1 M2) as Rb.
     destruct (eval_binop op v v0); [|exact Rb|exact I].
     split; [exact Rb | apply generic_ok; exact Rb].
   - (* EIsNone *)
-    simpl in Hi, Hcf.
+    simpl in Hi.
     destruct (infer P true d fr e) as [[t1 m1]| |] eqn:E1; simpl in Hi; try discriminate.
-    sub_eval IH e E1 Hd Hf Hcf M1 R1.
+    sub_eval IH e E1 Hd Hf M1 R1.
     destruct (narrow_none_sound P Htrans _ _ M1) as [N1 N2].
     assert (G : forall b, maps_ok P en (VBool b) (Some [], Some [])).
     { intro b. split; intro; eexists; split; try reflexivity; apply map_ok_nil. }
@@ -325,9 +398,9 @@ Proof.
     + destruct v; try discriminate. eapply mk_map_ok; eauto.
     + eapply mk_map_ok; eauto. apply N2. intro; subst; discriminate.
   - (* EIsNotNone *)
-    simpl in Hi, Hcf.
+    simpl in Hi.
     destruct (infer P true d fr e) as [[t1 m1]| |] eqn:E1; simpl in Hi; try discriminate.
-    sub_eval IH e E1 Hd Hf Hcf M1 R1.
+    sub_eval IH e E1 Hd Hf M1 R1.
     destruct (narrow_none_sound P Htrans _ _ M1) as [N1 N2].
     assert (G : forall b, maps_ok P en (VBool b) (Some [], Some [])).
     { intro b. split; intro; eexists; split; try reflexivity; apply map_ok_nil. }
@@ -336,10 +409,10 @@ Proof.
     + eapply mk_map_ok; eauto. apply N2. intro; subst; discriminate.
     + destruct v; try discriminate. eapply mk_map_ok; eauto.
   - (* EIsInst *)
-    simpl in Hi, Hcf.
+    simpl in Hi.
     destruct (infer P true d fr e) as [[t1 m1]| |] eqn:E1; simpl in Hi; try discriminate.
     destruct (cref_ok P k) eqn:Ek; [|discriminate].
-    sub_eval IH e E1 Hd Hf Hcf M1 R1.
+    sub_eval IH e E1 Hd Hf M1 R1.
     unfold cref_defined. unfold cref_ok in Ek. rewrite Ek.
     assert (G : forall b, maps_ok P en (VBool b) (Some [], Some [])).
     { intro b. split; intro; eexists; split; try reflexivity; apply map_ok_nil. }
@@ -349,24 +422,24 @@ Proof.
     destruct (narrow_isinstance_sound P Htrans _ _ _ _ _ En M1) as [Y N].
     apply eval_var in Ev. split; intro Hv; simpl in *; eapply mk_map_ok; eauto.
   - (* ENot *)
-    simpl in Hi, Hcf.
+    simpl in Hi.
     destruct (infer P true d fr e) as [[t1 [mi me]]| |] eqn:E1; simpl in Hi; try discriminate.
     inversion Hi; subst.
-    sub_eval IH e E1 Hd Hf Hcf M1 R1.
+    sub_eval IH e E1 Hd Hf M1 R1.
     split; [constructor|]. destruct R1 as [RT RF]. split; intro Hv; simpl in *.
     + apply RF. destruct (truthy v); [discriminate|reflexivity].
     + apply RT. destruct (truthy v); [reflexivity|discriminate].
   - (* EAnd *)
-    simpl in Hi, Hcf. apply andb_prop in Hcf. destruct Hcf as [C1 C2].
+    simpl in Hi.
     destruct (infer P true d fr e1) as [[t1 [mi me]]| |] eqn:E1; simpl in Hi; try discriminate.
-    sub_eval IH e1 E1 Hd Hf C1 M1 R1. destruct R1 as [RT RF]. simpl in *.
+    sub_eval IH e1 E1 Hd Hf M1 R1. destruct R1 as [RT RF]. simpl in *.
     destruct (narrow_truthy_sound P Htrans _ _ M1) as [TT TF].
     destruct mi as [mm|].
     + destruct (infer P true d (push fr mm false) e2) as [[t2 [mi2 me2]]| |] eqn:E2; simpl in Hi; try discriminate.
       inversion Hi; subst.
       destruct (truthy v) eqn:Tv.
       * destruct (RT eq_refl) as [m1' [Em1 Mok1]]. inversion Em1; subst.
-        pose proof (IH e2 d (push fr m1' false) t2 (mi2, me2) en C2 E2 Hd (push_ok _ _ _ _ Hf Mok1)) as R2.
+        pose proof (IH e2 d (push fr m1' false) t2 (mi2, me2) en E2 Hd (push_ok _ _ _ _ Hf Mok1)) as R2.
         destruct (eval P f en e2) as [v2|x|]; simpl in *; [|exact R2|exact I].
         destruct R2 as [M2 [R2T R2F]]. split; [apply join_sound; [exact Htrans | right; exact M2]|].
         split; intro Hv; simpl in *.
@@ -379,9 +452,9 @@ Proof.
       * destruct (RT eq_refl) as [? [Em _]]. discriminate.
       * split; [exact M1|]. split; intro Hv; simpl in *; [congruence | exact (RF eq_refl)].
   - (* EOr *)
-    simpl in Hi, Hcf. apply andb_prop in Hcf. destruct Hcf as [C1 C2].
+    simpl in Hi.
     destruct (infer P true d fr e1) as [[t1 [mi me]]| |] eqn:E1; simpl in Hi; try discriminate.
-    sub_eval IH e1 E1 Hd Hf C1 M1 R1. destruct R1 as [RT RF]. simpl in *.
+    sub_eval IH e1 E1 Hd Hf M1 R1. destruct R1 as [RT RF]. simpl in *.
     destruct (narrow_truthy_sound P Htrans _ _ M1) as [TT TF].
     destruct me as [mm|].
     + destruct (infer P true d (push fr mm false) e2) as [[t2 [mi2 me2]]| |] eqn:E2; simpl in Hi; try discriminate.
@@ -391,7 +464,7 @@ Proof.
         split; intro Hv; simpl in *; [|congruence].
         apply or_maps_ok. left. exact (RT eq_refl).
       * destruct (RF eq_refl) as [m1' [Em1 Mok1]]. inversion Em1; subst.
-        pose proof (IH e2 d (push fr m1' false) t2 (mi2, me2) en C2 E2 Hd (push_ok _ _ _ _ Hf Mok1)) as R2.
+        pose proof (IH e2 d (push fr m1' false) t2 (mi2, me2) en E2 Hd (push_ok _ _ _ _ Hf Mok1)) as R2.
         destruct (eval P f en e2) as [v2|x|]; simpl in *; [|exact R2|exact I].
         destruct R2 as [M2 [R2T R2F]]. split; [apply join_sound; [exact Htrans | right; exact M2]|].
         split; intro Hv; simpl in *.
@@ -403,16 +476,16 @@ Proof.
   - (* ETuple *)
     rewrite infer_tuple in Hi.
     destruct (infer_list true d fr es) as [ts| |] eqn:Ea; simpl in Hi; try discriminate. inversion Hi; subst.
-    pose proof (list_sound f IH es d fr ts en Hcf Ea Hd Hf) as Rl.
+    pose proof (list_sound f IH es d fr ts en Ea Hd Hf) as Rl.
     destruct (eval_list (eval P f en) es) as [vs|x|]; simpl; [|exact Rl|exact I].
     assert (Mt : mem P (VTuple vs) (TTuple ts)) by (constructor; exact Rl).
     split; [exact Mt | apply generic_ok; exact Mt].
   - (* EIndex *)
-    simpl in Hi, Hcf.
+    simpl in Hi.
     destruct (infer P true d fr e) as [[t1 m1]| |] eqn:E1; simpl in Hi; try discriminate.
     destruct (map_res (index_item i) (items t1)) as [ts| |] eqn:Em; simpl in Hi; try discriminate.
     inversion Hi; subst.
-    sub_eval IH e E1 Hd Hf Hcf M1 R1.
+    sub_eval IH e E1 Hd Hf M1 R1.
     destruct (mem_items P _ _ M1) as [it [Hi1 Mi]].
     destruct (map_res_in _ _ _ _ _ _ Em Hi1) as [ti [Hti Hin]].
     unfold index_item in Hti. destruct it; try discriminate.
@@ -428,9 +501,9 @@ Proof.
       { eapply mk_union_sound; [exact Htrans | exact Hin | exact Mw]. }
       split; [exact Mt | apply generic_ok; exact Mt].
   - (* ECond *)
-    simpl in Hi, Hcf. apply andb_prop in Hcf. destruct Hcf as [C12 C3]. apply andb_prop in C12. destruct C12 as [C1 C2].
+    simpl in Hi.
     destruct (infer P true d fr e1) as [[tc [mi me]]| |] eqn:E1; simpl in Hi; try discriminate.
-    sub_eval IH e1 E1 Hd Hf C1 M1 R1. destruct R1 as [RT RF]. simpl in *.
+    sub_eval IH e1 E1 Hd Hf M1 R1. destruct R1 as [RT RF]. simpl in *.
     destruct (match mi with None => Ok TNever | Some m0 => bind (infer P true d (push fr m0 false) e2) (fun x => Ok (fst x)) end)
       as [ta| |] eqn:Ea; simpl in Hi; try discriminate.
     destruct (match me with None => Ok TNever | Some m0 => bind (infer P true d (push fr m0 false) e3) (fun x => Ok (fst x)) end)
@@ -440,7 +513,7 @@ Proof.
     + destruct (RT eq_refl) as [m1' [Em1 Mok1]]. subst mi.
       destruct (infer P true d (push fr m1' false) e2) as [[t2 mm2]| |] eqn:E2; simpl in Ea; try discriminate.
       inversion Ea; subst.
-      pose proof (IH e2 d (push fr m1' false) ta mm2 en C2 E2 Hd (push_ok _ _ _ _ Hf Mok1)) as R2.
+      pose proof (IH e2 d (push fr m1' false) ta mm2 en E2 Hd (push_ok _ _ _ _ Hf Mok1)) as R2.
       destruct (eval P f en e2) as [v2|x|]; simpl in *; [|exact R2|exact I].
       destruct R2 as [M2 _].
       assert (Mt : mem P v2 (mk_union P [ta; tb])) by (apply join_sound; [exact Htrans | left; exact M2]).
@@ -448,16 +521,16 @@ Proof.
     + destruct (RF eq_refl) as [m1' [Em1 Mok1]]. subst me.
       destruct (infer P true d (push fr m1' false) e3) as [[t3 mm3]| |] eqn:E3; simpl in Eb; try discriminate.
       inversion Eb; subst.
-      pose proof (IH e3 d (push fr m1' false) tb mm3 en C3 E3 Hd (push_ok _ _ _ _ Hf Mok1)) as R3.
+      pose proof (IH e3 d (push fr m1' false) tb mm3 en E3 Hd (push_ok _ _ _ _ Hf Mok1)) as R3.
       destruct (eval P f en e3) as [v3|x|]; simpl in *; [|exact R3|exact I].
       destruct R3 as [M3 _].
       assert (Mt : mem P v3 (mk_union P [ta; tb])) by (apply join_sound; [exact Htrans | right; exact M3]).
       split; [exact Mt | apply generic_ok; exact Mt].
   - (* EReveal *)
-    simpl in Hi, Hcf.
+    simpl in Hi.
     destruct (infer P true d fr e) as [[t1 m1]| |] eqn:E1; simpl in Hi; try discriminate.
     inversion Hi; subst.
-    pose proof (IH e d fr t m1 en Hcf E1 Hd Hf) as R.
+    pose proof (IH e d fr t m1 en E1 Hd Hf) as R.
     destruct (eval P f en e) as [v|x|]; simpl in *; [|exact R|exact I].
     destruct R as [M _]. split; [exact M | apply generic_ok; exact M].
 Qed.
